@@ -97,6 +97,17 @@ CLAIMED.update({
    note="Nothing beyond the five rules is demanded; other irregularities are anomalies; unmodelled commands are inconclusive."),
 })
 
+CLAIMED.update({
+ "C10": dict(category="fault_enumeration", design="DESIGN.md §3 C10",
+   technique="runtime monitoring with crash-point enumeration: every prefix of the emitted script is applied to the device model, the real drc is re-run on the dumped hybrid state and its script executed and judged by the engine monitors",
+   text="For seeded pairs of all five device types every prefix length of the command sequence (joined entries split, cuts inside sub-mode blocks) yields a hybrid device state; drc is run again on it with the same target; the tool must accept it, the new script must be executable, reach a state equivalent to the target and compare clean afterwards. quick 120 pairs per type, thorough 1500.",
+   note="A crash leaves exactly the first k commands applied; PAN-OS prefixes are candidate-config states; Linux iptables load is atomic."),
+ "C14": dict(category="exploration", design="DESIGN.md §3 C14",
+   technique="runtime monitoring: step monitor evaluating every packet of a small universe against the bound ACLs (and the routed destinations) after every executed script entry",
+   text="(old, new) ACL pairs over a small universe (4 hosts, 2 nets, 2 ports, tcp/udp/ip), related by edits or drawn independently, and route-set pairs are fed to the real drc; the script is executed entry by entry (joined entry = one step) on the ASA/IOS/Linux models; after each step every packet on which old and new agree must get that verdict, every destination routed before and after must be routed. quick 2000 pairs, thorough 30000.",
+   note="Verdict = permit/deny of the first matching entry; an unbound interface counts as a different verdict; object-groups are not generated (excluded by the statement)."),
+})
+
 PENDING = {
 }
 
